@@ -15,8 +15,6 @@ RULE = ("history batches: `reset` + up to 30 (quick) / 50 (thorough) operations 
         "(lists), SN PN SC PC SX SM SA SD call (signals); the weights are in the batch notes.")
 ASSUMPTIONS = [
     "the caller respects object lifetimes (constructors on fresh storage, members on live objects) - generator and driver enforce it",
-    "element moves (base(base&&), base::operator=(base&&)) are only issued with a source that is linked to something; the "
-    "unlinked-source case is the suspected defect described in notes/C11.md and is excluded from generation (TODO there)",
     "callbacks, combiners and unregister functions are pure apart from the log/counter the harness keeps; the theorems hold for every choice",
     "a moved-from fcppt::function (std::function) is empty (libstdc++): calling a moved-from signal that has connections prints nocomb",
 ]
@@ -91,13 +89,19 @@ class Rings:
             self.erase(f"e{a[0]}")
             self.rings.insert(0, [f"e{a[0]}"])
         elif o == "M":
-            self.replace(f"e{a[1]}", f"e{a[0]}")
-            self.rings.insert(0, [f"e{a[1]}"])
+            if self.alone(f"e{a[1]}"):          # unlinked source -> unlinked new element
+                self.rings.insert(0, [f"e{a[0]}"])
+            else:
+                self.replace(f"e{a[1]}", f"e{a[0]}")
+                self.rings.insert(0, [f"e{a[1]}"])
         elif o == "A":
             if a[0] != a[1]:
                 self.erase(f"e{a[0]}")
-                self.replace(f"e{a[1]}", f"e{a[0]}")
-                self.rings.insert(0, [f"e{a[1]}"])
+                if self.alone(f"e{a[1]}"):      # source unlinked once the target has left
+                    self.rings.insert(0, [f"e{a[0]}"])
+                else:
+                    self.replace(f"e{a[1]}", f"e{a[0]}")
+                    self.rings.insert(0, [f"e{a[1]}"])
         elif o in ("LM", "SM"):
             if self.alone(f"h{a[1]}"):
                 self.rings.insert(0, [f"h{a[0]}"])
@@ -116,14 +120,6 @@ class Rings:
         elif o in ("LD", "SD"):
             self.erase(f"h{a[0]}")
 
-    def move_assign_ok(self, a, b):
-        """guard of the theorems: after `a` left its ring, `b` is still linked to something"""
-        if a == b:
-            return True
-        c = self.copy()
-        c.erase(f"e{a}")
-        return not c.alone(f"e{b}")
-
 
 def valid_list_ops(st, list_ids=LIST_IDS, elem_ids=ELEM_IDS, max_lists=MAX_LISTS_LIVE, max_elems=MAX_ELEMS_LIVE, canonical=False):
     """all valid operations in state st, grouped by kind. canonical: fresh ids are the smallest free id."""
@@ -138,12 +134,10 @@ def valid_list_ops(st, list_ids=LIST_IDS, elem_ids=ELEM_IDS, max_lists=MAX_LISTS
         ops["LM"] = [f"LM {k2} {k}" for k2 in free_l for k in ls]
     if len(es) < max_elems:
         ops["E"] = [f"E {e} {k}" for e in free_e for k in ls]
-        # TODO(defect move-from-unlinked): sources with st.alone(e) are excluded, see notes/C11.md
-        ops["M"] = [f"M {e2} {e}" for e2 in free_e for e in es if not st.alone(f"e{e}")]
+        ops["M"] = [f"M {e2} {e}" for e2 in free_e for e in es]       # unlinked / moved-from sources included
     ops["d"] = [f"d {e}" for e in es]
     ops["u"] = [f"u {e}" for e in es]
-    # TODO(defect move-from-unlinked): pairs where b would be unlinked once a has left are excluded
-    ops["A"] = [f"A {a} {b}" for a in es for b in es if st.move_assign_ok(a, b)]
+    ops["A"] = [f"A {a} {b}" for a in es for b in es]
     ops["LA"] = [f"LA {k} {k2}" for k in ls for k2 in ls]
     ops["LD"] = [f"LD {k}" for k in ls]
     return {k: v for k, v in ops.items() if v}
@@ -333,8 +327,7 @@ MANIFEST = {
                    "in connection order, left fold of the combiner, unregister exactly once. Tied to the code by a differential "
                    "correspondence on operation histories (ASan/UBSan harness, raw prev_/next_ compared after every step)."),
     "level_note": ("Trusted: Lean kernel + propext/Classical.choice/Quot.sound; fidelity of the hand-written model outside the "
-                   "exercised histories; harness and line protocol. Element moves from an unlinked source are outside the "
-                   "theorems' guard (suspected genuine defect, notes/C11.md). No sorry/axiom/native_decide."),
+                   "exercised histories; harness and line protocol. No sorry/axiom/native_decide."),
     "technique": "Lean 4 proof (representation relation over a pointer store) + differential correspondence on histories (ASan/UBSan harness)",
     "design_ref": "DESIGN.md §5 C11, Appendix A.4",
 }
